@@ -7,10 +7,12 @@
                              in a recorded table; if every recorded entry is sound, the replayed result is sound.
    C24_add_entry / C24_sub_entry   the table hypothesis is dischargeable: an entry whose result is what the strided-interval model
                              computes for + (for -, as repaired, every subtrahend) is sound, by C21's theorems.
+   C24_neg_entry / C24_invert_entry / C24_zext_entry / C24_cmp_entries   likewise for unary -, ~, ZeroExt and the eight order
+                             comparisons (ULT .. SGE, whose abstract result is a BoolResult), by C21_neg, C21_not, C21_zext, C21_ult .. C21_sge.
    The soundness of the other interval transfer functions is C21's subject and a hypothesis here. *)
 Require Import CV.Spec.BV CV.Model.PyPrelude CV.Model.Ast CV.Model.Build CV.Model.Rewrite CV.Model.AbsInt
                CV.Proofs.AstLemmas CV.Proofs.BuildSound CV.Proofs.SimpSound CV.Proofs.AbsIntSound CV.Proofs.AbsIntTable
-               CV.Model.SI CV.Model.SIUnion CV.Proofs.SISound CV.Proofs.AbsIntSI.
+               CV.Model.SI CV.Model.SIUnion CV.Proofs.SISound CV.Proofs.AbsIntSI CV.Model.SICmp CV.Model.SINot CV.Model.SIZextM.
 From Coq Require Import ZArith List.
 Import ListNotations.
 Open Scope Z_scope.
@@ -61,3 +63,32 @@ Print Assumptions C24_sub_entry.
 Theorem C24_union_join : forall a b r, wf a -> wf b -> bits a = bits b -> SIUnion.si_union a b = Ok r -> join_ok (asi a, asi b, asi r).
 Proof. exact union_join_ok. Qed.
 Print Assumptions C24_union_join.
+
+Theorem C24_neg_entry : forall a r, wf a -> proper a -> si_neg a = Ok r -> entry_ok (ONeg, [], [asi a], asi r).
+Proof. exact neg_entry_ok. Qed.
+Print Assumptions C24_neg_entry.
+
+Theorem C24_invert_entry : forall a r, wf a -> proper a -> si_not a = Ok r -> entry_ok (OInvert, [], [asi a], asi r).
+Proof. exact invert_entry_ok. Qed.
+Print Assumptions C24_invert_entry.
+
+Theorem C24_zext_entry : forall a n r, wf a -> 0 <= n -> bits a + n < SHIFT_LIMIT -> si_zext a (bits a + n) = Ok r ->
+  entry_ok (OZeroExt, [n], [asi a], asi r).
+Proof. exact zext_entry_ok. Qed.
+Print Assumptions C24_zext_entry.
+
+Theorem C24_cmp_entries : forall a b r, wf a -> wf b ->
+  (si_ult a b = Ok r -> entry_ok (OULT, [], [asi a; asi b], atri r)) /\
+  (si_ule a b = Ok r -> entry_ok (OULE, [], [asi a; asi b], atri r)) /\
+  (si_ugt a b = Ok r -> entry_ok (OUGT, [], [asi a; asi b], atri r)) /\
+  (si_uge a b = Ok r -> entry_ok (OUGE, [], [asi a; asi b], atri r)) /\
+  (si_slt a b = Ok r -> entry_ok (OSLT, [], [asi a; asi b], atri r)) /\
+  (si_sle a b = Ok r -> entry_ok (OSLE, [], [asi a; asi b], atri r)) /\
+  (si_sgt a b = Ok r -> entry_ok (OSGT, [], [asi a; asi b], atri r)) /\
+  (si_sge a b = Ok r -> entry_ok (OSGE, [], [asi a; asi b], atri r)).
+Proof.
+  exact (fun a b r Wa Wb =>
+    conj (ult_entry_ok a b r Wa Wb) (conj (ule_entry_ok a b r Wa Wb) (conj (ugt_entry_ok a b r Wa Wb) (conj (uge_entry_ok a b r Wa Wb)
+    (conj (slt_entry_ok a b r Wa Wb) (conj (sle_entry_ok a b r Wa Wb) (conj (sgt_entry_ok a b r Wa Wb) (sge_entry_ok a b r Wa Wb)))))))).
+Qed.
+Print Assumptions C24_cmp_entries.
